@@ -2,7 +2,8 @@
 (* code -> spec: validates recorded executions of real composed apps          *)
 (* (apply_to, serial and loky-parallel with free-running task durations)       *)
 (* against ComposedApp.tla.  TRACE_FILE holds a JSON array of traces           *)
-(*   [plan |-> <<profile_1, .., profile_N>>, w |-> workers, wtyped |-> BOOLEAN, *)
+(*   [plan |-> <<profile_1, .., profile_N>>, named |-> <<BOOLEAN..>>,           *)
+(*    w |-> workers, wtyped |-> BOOLEAN,                                        *)
 (*    events |-> << [op |-> .., t |-> .., rec |-> ..] .. >>]                    *)
 (* with events, in the order of their (system wide monotonic) time stamps:     *)
 (*   Submit            apply_to was called                                     *)
@@ -20,12 +21,13 @@ EXTENDS ComposedApp, TLCExt
 Traces == JsonDeserialize(IOEnv.TRACE_FILE)
 
 VARIABLES tid, l, bad
-tvars == <<plan, w, wtyped, submitted, pending, running, finished, result, order, cons, written, tid, l, bad>>
+tvars == <<plan, named, w, wtyped, submitted, pending, running, finished, result, order, cons, written, tid, l, bad>>
 
 Ev == Traces[tid].events[l]
 
 Fresh(k) ==
     /\ plan' = Traces[k].plan
+    /\ named' = Traces[k].named
     /\ w' = Traces[k].w
     /\ wtyped' = Traces[k].wtyped
     /\ submitted' = FALSE
@@ -37,7 +39,7 @@ Fresh(k) ==
 
 TraceInit ==
     /\ tid = 1 /\ l = 1 /\ bad = {}
-    /\ plan = Traces[1].plan /\ w = Traces[1].w /\ wtyped = Traces[1].wtyped
+    /\ plan = Traces[1].plan /\ named = Traces[1].named /\ w = Traces[1].w /\ wtyped = Traces[1].wtyped
     /\ submitted = FALSE /\ pending = <<>> /\ running = {} /\ finished = {}
     /\ result = [i \in Inputs |-> None]
     /\ order = <<>> /\ cons = <<>>
